@@ -120,7 +120,7 @@ func runC02(c *Ctx) {
 	p := c.Progs["mod"]
 	c.Rule("C02.H", "hop-by-hop tables exact; request-side deletion guarded by the predicate on the same name", 2)
 	c.Rule("C02.W", "who-may-write the forwarded request: every mutation site is in the frozen table; plain single-host reverse proxy", 12)
-	c.Rule("C02.I", "identity of the forwarded request object and private parse reader", 5)
+	c.Rule("C02.I", "identity of the forwarded request object, private parse reader, reply body lifetime", 6)
 	c.Rule("C02.T", "no non-transparent handler in the pass-through chain", 5)
 
 	ruleHopTables(c, p, "C02.H")
@@ -318,6 +318,49 @@ func runC02(c *Ctx) {
 			}
 			c.Check("C02.I", "agent:private-parse-reader", p, rr.Pos(), ok, "the embedded request is parsed through a bufio.Reader created for this reply's body", "the reader given to http.ReadRequest ("+PathOf(Args(CallOf(rr))[0])+") is not a fresh bufio.NewReader(proxyResp.Body): the parsed request's body reads lazily through it, so a shared/pooled reader lets two in-flight requests take each other's body bytes")
 		}
+	}
+	if f := c.need(p, "C02.I", "agent/utils.ReadRequest"); f != nil {
+		// the fetched reply's body (which the parsed request's body reads from, lazily) must stay open until the callback has returned
+		var cb ssa.Instruction
+		EachInstr(f, func(i ssa.Instruction) {
+			if cc := CallOf(i); cc != nil && !cc.IsInvoke() && PathOf(cc.Value) == P(f, 4) {
+				cb = i
+			}
+		})
+		okDefer := false
+		early := ""
+		EachInstr(f, func(i ssa.Instruction) {
+			cc := CallOf(i)
+			if cc == nil || !strings.HasSuffix(CalleeName(cc), ").Close") {
+				return
+			}
+			if PathOf(Args(cc)[0]) != "result0:"+ModPath+"/agent/utils.getRequestWithRetries.Body" {
+				return
+			}
+			if _, isDefer := i.(*ssa.Defer); isDefer {
+				okDefer = true
+			} else if cb != nil && !Dominates(cb, i) {
+				early = p.Pos(i.Pos())
+			}
+		})
+		// helpers between fetch and callback must not close the reply body they are handed
+		for _, fn := range p.FuncsIn("agent/utils") {
+			if fn == f || fn.Name() == "getRequestWithRetries" {
+				continue
+			}
+			for _, i := range Calls(fn, "(io.Closer).Close", "(io.ReadCloser).Close") {
+				a := Args(CallOf(i))[0]
+				for k, pr := range fn.Params {
+					if NamedType(pr.Type()) == "net/http.Response" && PathOf(a) == P(fn, k)+".Body" {
+						// is this helper on the fetch path? (called from ReadRequest)
+						if len(Calls(f, FuncFullName(fn))) > 0 {
+							early = p.Pos(i.Pos()) + " (in " + fn.Name() + ")"
+						}
+					}
+				}
+			}
+		}
+		c.Check("C02.I", "agent:fetched-reply-open-until-forwarded", p, f.Pos(), cb != nil && okDefer && early == "", "ReadRequest defers proxyResp.Body.Close() itself, so the reply body (from which the forwarded request's body is streamed lazily) stays open until the callback has returned", "the body of the fetched reply is closed before the callback has forwarded the request (Close at "+early+", deferred in ReadRequest: "+fmt.Sprint(okDefer)+"): the embedded request's body is streamed lazily from that reply, so bodies beyond the 4 KiB parse buffer are truncated")
 	}
 	if f := c.need(p, "C02.I", "agent.forwardRequest"); f != nil {
 		if s := c.UniqueCall("C02.I", p, f, false, "(net/http.Handler).ServeHTTP"); s != nil {
